@@ -9,6 +9,7 @@ Retention.tla (incl. the deletion of an active fraction).  Whole-store histories
 StoreTrace.tla, checks/_store.py): real store processes run seeded random histories of bulks, rotation,
 background seals (some parked so that a newer seal overtakes an older one), retention, graceful stops
 and process deaths at random hook points; every recorded history must be a behaviour of Store.tla."""
+import vlib
 from checks import _lifecycle as lc
 from checks import _store
 
@@ -22,6 +23,23 @@ def run(ctx):
     ntr, nev = lc.traces(ctx, "lifecycle", with_retention=True, rounds=10 if ctx.quick() else 40)
     _store.design(ctx)
     sruns, sev = _store.histories(ctx, "lifecycle", runs=120 if ctx.quick() else 2500, scenario_runs=2 if ctx.quick() else 8)
+    # a request that took its fraction list before a retention pass and goes on using it afterwards (ProxyFrac.tla:
+    # ReadAsk / ReadAcquire on a removed fraction): no panic, the fraction that stays is served completely, the removed
+    # one completely or not at all
+    rdrv = vlib.build_driver("retired")
+    rc, outs, err = vlib.run_driver(rdrv, [], timeout=600, ok_codes=(0, 2))
+    rs = next((o for o in outs if o.get("summary")), None)
+    for o in outs:
+        if o.get("infra"):
+            raise vlib.Infra("retired: " + o["infra"])
+        if "what" in o and not o.get("summary"):
+            ctx.violation("lifecycle:retired:%s" % str(o["what"])[:40], o,
+                          what="a request holding its fraction list across a retention pass (%s): %s" % (o.get("where"), o["what"]))
+    if not rs and rc == 2 and "panic" in err:
+        ctx.violation("lifecycle:retired:store-died", {"stderr": err[-2000:]}, what="the store died while a request used its fraction list after a retention pass: " + err[-300:])
+    elif not rs:
+        raise vlib.Infra("retired produced no summary: " + err[-500:])
+    ctx.cov["requests_across_retention"] = rs.get("evals") if rs else 0
     ctx.cov["traces_validated_against_impl"] = summ["cases"] + ntr + sruns
     ctx.cov["evaluations"] = summ["evals"] + nev + sev
     ctx.cov["distinct_nontrivial"] = summ["nontrivial"]
